@@ -144,6 +144,14 @@ def handleTypes (cmd : String) (a : List String) : Option String :=
     let inp ← unhex j
     let buf := dirtyBuf (← len.toNat?) (← seed.toNat?).toUInt64
     some (fmtOutcome (parseEvent inp buf) fun (c, l, b) => s!"ok {c} {l} {toHex b}")
+  | "DLN", [b, total] => do
+    let b ← unhex b
+    let n ← total.toNat?
+    if n < b.length then some "bad-request" else
+    match eventDelineateLen b n with
+    | .ok len => some s!"ok {len}"
+    | .err => some "err"
+    | .panic => some "panic model"
   | "EVA", [b] => do
     let b ← unhex b
     match eventDelineate b with
